@@ -48,6 +48,9 @@ def gen_cases(tier, seed):
     for n in (8, 400):
         for ending in ('return', 'raise'):
             cases.append({'carrier': 'process', 'n': n, 'size': 50, 'ending': ending, 'pause': 0, 'parent_level': 'DEBUG', 'levels': False, 'threads': 1, 'rich': True})
+    # a child that is silent for several seconds and logs only then (more than the pipe holds / a few records)
+    for n, size in ((4, 50), (150, 2000)):
+        cases.append({'carrier': 'process', 'n': n, 'size': size, 'ending': 'return', 'pause': 0, 'parent_level': 'DEBUG', 'levels': False, 'threads': 1, 'silence_first': 6.5})
     extra = []
     for n in (5, 300, 3000):
         for w in (1, 2):
@@ -61,7 +64,7 @@ def gen_cases(tier, seed):
                               'handler_delay': 0.003, 'parent_level': 'DEBUG'})
     if tier == 'quick':
         rng.shuffle(cases)
-        lv = [c for c in cases if c.get('named_logger_level') or c.get('handler_level') or c.get('rich')]
+        lv = [c for c in cases if c.get('named_logger_level') or c.get('handler_level') or c.get('rich') or c.get('silence_first')]
         cases = [c for c in cases if c not in lv]
         big = [c for c in cases if c['n'] >= 2000][:14]
         small = [c for c in cases if c['n'] < 2000][:46]
@@ -125,7 +128,7 @@ def run_case(case):
     try:
         if case['carrier'] == 'process':
             spec = {'n': case['n'], 'size': case['size'], 'ending': case['ending'], 'levels': case['levels'], 'threads': case['threads'],
-                    'pause_before_end': case['pause'], 'rich': case.get('rich', False)}
+                    'pause_before_end': case['pause'], 'rich': case.get('rich', False), 'silence_first': case.get('silence_first', 0)}
             p = mm.Process(target=targets.c20_target, args=(spec,))
             p.start()
 
